@@ -39,6 +39,9 @@ Added probe families (helpers in harness/s5_c13.py):
    member-sized, null-terminated or LEB128 members; `typedef uleb128 L0`; `typedef char T0[]`) and aliases of them; `void` and `uleb128`
    joined the built-in names; these names are re-declared (same and different target) through every text form and — new form
    `add_type` — through `cs.add_type(name, "other name")` / `cs.add_type(name, <type object>)`.
+ * multi-word enum / flag base types (`enum E : unsigned long long {...}`, ENUM_BASES_MULTI): the words are separate tokens, so every
+   mutant family puts blanks / newlines / comments between them (the handler used to look the raw text up: `unsigned  int` was a
+   ResolveError — repaired in the library; feature `enum-base:multi-word`).
  * definition parser correspondence (helpers in harness/v1_c13.py): for every baseline text and every mutant text the declaration list
    of the Lean model of the scanner and the declaration handlers (`CstructModel/DefParser.lean`, driver command `parsedecls`) is compared
    with the declarations recorded from the REAL parser (a recording subclass of `TokenParser`, nothing in /repo is changed), and the
@@ -65,6 +68,9 @@ SEPS_OPT = ["", "", "/**/", "/* tight */"] + SEPS_REQ
 LOCAL_TAGS = ["entry", "item", "hdr"]
 TWIN_SCALARS = ["int48", "uint48"]
 TWIN_COUNTS = ["2", "4", "2", "4", "", "cnt & 3", "cnt"]
+# multi-word integer names of the built-in table, as base types of enums / flags (the words are separate tokens for the mutants)
+ENUM_BASES_MULTI = ["unsigned int", "unsigned short", "unsigned char", "signed char", "unsigned long long", "long long", "signed int", "unsigned long",
+                    "signed short"]
 
 
 class Item:
@@ -150,7 +156,7 @@ def gen_items(rnd, n, prefix="", multi=True, twins=None):
         elif r < 0.3:
             nm = tname()
             kind = rnd.choice(["enum", "flag"])
-            base = rnd.choice(["uint8", "uint16", "uint32", "int32"])
+            base = rnd.choice(["uint8", "uint16", "uint32", "int32"] + ENUM_BASES_MULTI)
             mem = []
             for i in range(rnd.randint(1, 5)):
                 mem.append(f"{nm}_M{i}")
@@ -158,7 +164,8 @@ def gen_items(rnd, n, prefix="", multi=True, twins=None):
                     mem += ["=", rnd.choice(["1", "2", "0x10", "4", f"{nm}_M{i-1} + 1" if i else "7"])]
                 mem.append(",")
             mem = mem[:-1] if rnd.random() < 0.5 else mem
-            head = [kind, nm] + ([":", base] if rnd.random() < 0.7 else [])
+            # a multi-word base type is several tokens: the mutants put blanks / newlines / comments between its words
+            head = [kind, nm] + ([":"] + base.split(" ") if rnd.random() < 0.7 else [])
             items.append(Item(head + ["{"] + mem + ["}", ";"], {nm}, set(), enum=True))
             types.append(nm)
         elif r < 0.45 and types:
@@ -582,6 +589,8 @@ def run(env) -> Result:
             res.feat(ft)
         for ft in twin_features(items):
             res.feat(ft)
+        if any(it.enum and ":" in it.tokens and it.tokens.index("{") - it.tokens.index(":") > 2 for it in items):
+            res.feat("enum-base:multi-word")
         # comment stripper correspondence (model)
         lines.append(sx([A("stripcomments"), base_text]))
         metas.append(("strip", base_text, dc.parser.TokenParser._remove_comments(base_text)))
